@@ -74,6 +74,12 @@ func c07Scenarios(tier string) []*explore.Scenario {
 			}
 		}
 	}
+	for _, readerIsServer := range []bool{true, false} {
+		for pat := 0; pat < 5; pat++ {
+			readerIsServer, pat := readerIsServer, pat
+			scs = append(scs, &explore.Scenario{Name: fmt.Sprintf("c07/long-runs/reader=%s/pattern=%d", roleName(readerIsServer), pat), Bound: 0, Body: func(x *explore.Ctx) { c07LongRun(x, readerIsServer, pat, tier) }})
+		}
+	}
 	for ri := range c07Replies {
 		ri := ri
 		scs = append(scs, &explore.Scenario{Name: fmt.Sprintf("c07/dialreply/prefix/%d", ri), Bound: 0, Body: func(x *explore.Ctx) { c07DialReply(x, ri, false, true) }})
@@ -416,4 +422,54 @@ func c07Headers(x *explore.Ctx, alpha []byte, maxLen, a, b int, originMode bool)
 	x.Obs("v=%q upgrade=%v subprotocols=%d conn=%v", v, up, len(sp), conn != nil)
 	x.Check((conn == nil) == (err != nil), "C07:headers:conn-xor-err", "header value %q: conn=%v err=%v", v, conn != nil, err)
 	x.Check(len(sp) <= len(v)+1, "C07:headers:subprotocols", "Subprotocols returned %d entries for %q", len(sp), v)
+}
+
+// c07LongRun: very long runs of tiny frames (a per-frame recursion, a per-frame allocation that
+// is kept, or a loop that stops consuming would show as a crash, a memory blow-up or a hang).
+func c07LongRun(x *explore.Ctx, readerIsServer bool, pat int, tier string) {
+	n := 200000
+	if tier == "thorough" {
+		n = 3000000
+	}
+	mk := maskKeys[3]
+	m := readerIsServer
+	var unit []byte
+	first := wsref.Encode(wsref.Frame{Opcode: wsref.OpBinary, Masked: m, Key: mk})
+	switch pat {
+	case 0: // an endless message of empty continuation frames
+		unit = wsref.Encode(wsref.Frame{Opcode: wsref.OpCont, Masked: m, Key: mk})
+	case 1: // pings with empty payload
+		first, unit = nil, wsref.Encode(wsref.Frame{Fin: true, Opcode: wsref.OpPing, Masked: m, Key: mk})
+	case 2: // pongs between the fragments of an endless message
+		unit = wsref.Encode(wsref.Frame{Fin: true, Opcode: wsref.OpPong, Masked: m, Key: mk})
+	case 3: // empty complete messages
+		first, unit = nil, wsref.Encode(wsref.Frame{Fin: true, Opcode: wsref.OpText, Masked: m, Key: mk})
+	case 4: // one-byte continuation frames
+		unit = wsref.Encode(wsref.Frame{Opcode: wsref.OpCont, Masked: m, Key: mk, Payload: []byte{'x'}})
+	}
+	stream := append([]byte{}, first...)
+	stream = append(stream, bytes.Repeat(unit, n)...)
+	nc := netsim.NewConn(stream)
+	nc.NoReadLog = true
+	c := websocket.VerifNewConn(nc, readerIsServer, 0, 0, nil, false)
+	c.SetPingHandler(func(string) error { return nil })
+	msgs, bytesGot := 0, 0
+	alloc := memGuard(func() {
+		for {
+			_, r, err := c.NextReader()
+			if err != nil {
+				break
+			}
+			k, _ := io.Copy(io.Discard, r)
+			bytesGot += int(k)
+			msgs++
+			if msgs > n+2 {
+				break
+			}
+		}
+	})
+	x.NonTrivial()
+	x.Obs("pattern=%d frames=%d messages=%d bytes=%d", pat, n, msgs, bytesGot)
+	x.Check(msgs <= n+1, "C07:long-run:no-progress", "read loop produced more messages than frames")
+	x.Check(alloc <= uint64(8<<20+64*len(stream)), "C07:long-run:allocation", "%d bytes allocated for a run of %d tiny frames (%d input bytes)", alloc, n, len(stream))
 }
